@@ -259,10 +259,27 @@ def gen_cases(rng, tier):
             alpha = rng.choice([1.0, 0.5, 2.0, rng.uniform(0.1, 3)]); beta = rng.choice([0.0, 1.0, rng.uniform(0.1, 2), -1e-3 * min(a[i][i] for i in range(n))])
             a2 = gen_float(rng, n, "spd", 100.0)
             cases.append(("float", "U %s %d %s %s | %s | %s" % (ao, n, tok(alpha), tok(beta), fl(a2), fl([v]))))
+            # update vectors with exact zeros (unit vector, axis-aligned step, leading zeros, v = 0) and alpha != 1: a column whose
+            # component is zero must still be scaled by sqrt(alpha)
+            for _ in range(2):
+                z = rng.randint(1, n); vz = [0.0] * z + [rng.uniform(-1, 1) for _ in range(n - z)]
+                if rng.random() < 0.3: vz = [0.0] * n; vz[rng.randrange(n)] = rng.choice([1.0, -2.0])
+                cases.append(("float", "U %s %d %s %s | %s | %s" % (ao, n, tok(rng.choice([0.5, 2.0, 3.0, 0.25])), tok(rng.choice([1.0, 0.5, 2.0])), fl(gen_float(rng, n, "spd", 100.0)), fl([vz]))))
             cases.append(("float", "G %s %d | %s" % (ao, n, fl(gen_float(rng, n, "gen", 10.0 ** rng.choice([0, 2, 4, 8]))))))
             if n <= 12:
                 for _ in range(2): cases.append(("lustruct", "G %s %d | %s" % (ao, n, fl(gen_lu_struct(rng, n)))))
             cases.append(("float", "E %s %d | %s" % (ao, n, fl(symm(gen_float(rng, n, "gen", 100.0))))))
+            # structured symmetric matrices: exactly tridiagonal with negative / mixed couplings (tridiag(-1,2,-1) among them),
+            # and a dense matrix whose first off-diagonal is negative and dominates the rest of its row
+            tri = [[0.0] * n for _ in range(n)]
+            lap = rng.random() < 0.4
+            for i in range(n):
+                tri[i][i] = 2.0 if lap else float(rng.randint(-3, 3))
+                if i + 1 < n: tri[i][i + 1] = tri[i + 1][i] = -1.0 if lap else rng.choice([-1.0, -2.5, 0.5, -0.125])
+            cases.append(("float", "E %s %d | %s" % (ao, n, fl(tri))))
+            dom = symm(gen_float(rng, n, "gen", 10.0))
+            for i in range(n - 1): dom[i][i + 1] = dom[i + 1][i] = -10.0 ** rng.choice([2, 3, 5])
+            cases.append(("float", "E %s %d | %s" % (ao, n, fl(dom))))
             cases.append(("float", "P %s %d | %s" % (ao, n, fl(gen_float(rng, n, "spd", 10.0 ** rng.choice([0, 2, 4]))))))
             d, r = gen_semi_deficient(rng, n)
             cases.append(("float", "P %s %d | %s" % (ao, n, fl(d))))
